@@ -63,6 +63,9 @@ func runC13(p *Prog, r *Report, tier string) {
 	}
 	checkSingleSection(p, r, "R-LOCK.whole-op", aggMutex, "pkg/intermediate")
 	checkNoEscape(p, r, gs, "R-LOCK.escape", "pkg/intermediate", nil)
+	// query results (GetRecords -> GetElementMap) hand out the elements' byte slices: later ingestion must not write into them
+	checkValueSettersFresh(p, r, "R-LOCK.escape-values")
+	checkWorkerAppliesEveryMessage(p, r, "R-OWNER.worker-applies")
 
 	// workers: the job handed to every worker is a method of AggregationProcess (so it is covered by the rules above)
 	start := p.Fn("(*pkg/intermediate.AggregationProcess).Start")
@@ -89,5 +92,60 @@ func runC13(p *Prog, r *Report, tier string) {
 		}
 		r.Check(ok, "R-OWNER.worker-job", "(*pkg/intermediate.AggregationProcess).Start: job passed to createWorker", p.instrPos(c),
 			"job is "+name+", a repo method analysed by the lock rules", "the job handed to the workers cannot be resolved to a repository function", true)
+	}
+}
+
+// checkWorkerAppliesEveryMessage: a message taken off the input channel is handed to the job on every path: between the
+// receive (ok == true) and the job call there is no return and no way back to the select. A "stop is pending, bail out"
+// check placed after the receive throws away a message that was already consumed - a lost update.
+func checkWorkerAppliesEveryMessage(p *Prog, r *Report, rule string) {
+	n := 0
+	for _, f := range p.RepoFns {
+		if !keyInPkg(fnKey(f), "pkg/intermediate") {
+			continue
+		}
+		var job *ssa.Call
+		eachInstr(f, func(in ssa.Instruction) {
+			if c, ok := in.(*ssa.Call); ok && !c.Call.IsInvoke() && c.Call.StaticCallee() == nil {
+				if _, fn, _, ok := loadedField(c.Call.Value); ok && fn == "job" {
+					job = c
+				}
+			}
+		})
+		if job == nil {
+			continue
+		}
+		n++
+		// the message handed to the job is the one received by the select; find the ok test
+		var okBlock *ssa.BasicBlock
+		var sel *ssa.Select
+		if ex, isEx := job.Call.Args[0].(*ssa.Extract); isEx {
+			sel, _ = ex.Tuple.(*ssa.Select)
+		}
+		if sel != nil {
+			eachInstr(f, func(in ssa.Instruction) {
+				i, ok := in.(*ssa.If)
+				if !ok {
+					return
+				}
+				if ex, ok := i.Cond.(*ssa.Extract); ok && ex.Tuple == ssa.Value(sel) && ex.Index == 1 {
+					okBlock = i.Block().Succs[0]
+				}
+			})
+		}
+		if okBlock == nil {
+			r.Undecided(rule, fnKey(f)+": receive of a message followed by the job", p.pos(f.Pos()), "the job is not called with the message received by a select whose ok flag is tested")
+			continue
+		}
+		lh := loopHeadOf(job.Block())
+		q := &pathQuery{loopHead: lh, discharge: func(in ssa.Instruction) bool { return in == ssa.Instruction(job) }}
+		if trail, bad := q.findFromBlock(okBlock); bad {
+			r.Violation(rule, fnKey(f)+": every received message reaches the job", p.instrPos(job), "a message that was received can be dropped without being processed (return / next iteration before the job call): its records never reach the aggregation - a lost update; path "+p.describePath(f, trail))
+		} else {
+			r.OK(rule, fnKey(f)+": every received message reaches the job", p.instrPos(job), "no exit and no way back to the select between the receive and the job", true)
+		}
+	}
+	if n == 0 {
+		r.Undecided(rule, "anchor: worker goroutine calling its job", "pkg/intermediate/worker.go", "not found")
 	}
 }
